@@ -16,7 +16,7 @@ INFO = {
 }
 
 
-def h_dt(defs, main, N, mode, style='sub', pre=0):
+def h_dt(defs, main, N, mode, style='sub', pre=0, fail_first=False):
     defs_list = [(n, T(d)) for n, d in defs]
     main = T(main)
     dd = dict(defs_list)
@@ -32,6 +32,18 @@ def h_dt(defs, main, N, mode, style='sub', pre=0):
         w = dt.trace(env, vs, N)
         res = []
         if mode == 'offline':
+            if fail_first:
+                # an evaluate() on the same object that raised part-way (division by exactly zero in a later assertion, after earlier
+                # assertions were computed) precedes the call whose named values are read
+                for x in w.get('y', []):
+                    env.assume(A.Or(A.lt(x, 0), A.lt(0, x)))
+                bad = {'time': list(range(N))}
+                for v in vs:
+                    bad[v] = [0.0 if v == 'y' else 7.0 + i for i in range(N)]
+                try:
+                    sm.evaluate(bad)
+                except ZeroDivisionError:
+                    pass
             dt.offline(sm, w, N)
             for v in vs:
                 res += dt.eq_list(A, 'var-%s' % v, list(sm.get_value(v)), w[v])
@@ -144,6 +156,13 @@ def obligations(tier, rng):
                 for mode in ['offline'] + (['pastified'] if fut else ['online']):
                     out.append(ob('C12', 'dt', 'dt/%s/nested/p=%s/q=%s/out=%s' % (mode, text(d), text(q), text(m)),
                                   defs=[['p', d], ['q', q]], main=m, N=N, mode=mode))
+    # the object's previous evaluate() raised part-way (division by zero in a later assertion): the named values read after the next call
+    # are those of that call's data
+    for defs, m in [([['p', ('sub', X, ('const', 1.0))]], ('always', ('geq', ('div', P, Y), ('const', 1.0)))),
+                    ([['p', ('once_t', X, 0, 1)], ['q', ('div', P, Y)]], ('geq', Q, P)),
+                    ([['p', ('geq', X, ('const', 1.0))], ['q', ('historically', P)]], ('and', Q, ('geq', ('div', X, Y), ('const', 0.0))))]:
+        out.append(ob('C12', 'dt', 'dt/offline/after-failing-call/%s/out=%s' % (';'.join('%s=%s' % (n, text(d)) for n, d in defs), text(m)),
+                      defs=defs, main=m, N=3, mode='offline', fail_first=True))
     # names of input variables whose last occurrence sits under a repeated sub-formula
     GX = ('geq', X, ('const', 3.0))
     for m in [('and', GX, ('once_t', GX, 0, 1)), ('or', ('prev', X), ('not', ('prev', X))), ('and', ('and', P, Z), ('once', ('and', P, Z)))]:
